@@ -38,8 +38,11 @@ CHECKS = {
          'back to that tree (parentheses and -( ) respected). C04_eval: on every tree whose proper sub-expressions are non-zero the '
          'model of Expression.parse/with_units/NegatedExpression returns the value of ordinary arithmetic and the unit of the leftmost '
          'operand that has one. Tie: all operator pairs and triples x unit placements x literal/variable operands and random trees '
-         'through the real compiler, compared with exact Fractions to 1e-9.'),
-   note=BASE_NOTE + ' Open known finding C04-negvar (unary minus on a negative-valued variable) is replayed each run; PLY implementing the documented conflict rule is assumed and exercised by the operator catalogue.'),
+         'through the real compiler, compared with exact Fractions to 1e-9. Unary minus on a variable: Model/Sign.lean models the folding of the '
+         'sign token (utility.fold_signs); C04_sign_clean/_fixed/_idem/_conservative/_value/_reading/_local: the output never holds a double '
+         'sign, sign-free token lists are untouched, n-fold negation is decided by parity with a negative number losing its sign, folding is '
+         'local; tied in-process to utility.fold_signs on random token lists, plus a catalogue of -@v in every value position.'),
+   note=BASE_NOTE + ' C04-negvar (unary minus on a negative-valued variable) was an open finding and is repaired (fix c681c54), its inputs are generated; PLY implementing the documented conflict rule is assumed and exercised by the operator catalogue.'),
  'C09': dict(category='proof',
    technique='Lean 4 theorems over exact rationals (HLS/RGB round trip, ranges, rounding, mix) + dense-grid differential correspondence of the float code with the exact model',
    text=('Sixteen theorems about an exact-rational transcription of colorsys and of color.py: hlsToRgb inverts rgbToHls on [0,1]^3; component '
@@ -58,7 +61,7 @@ CHECKS = {
          'C02_count/tuples_mem: without & one selector per parent, with k ampersands one per k-tuple of parents (all of them). C02_amp: every & is '
          'replaced textually, in order, by the tuple member; C02_desc/C02_comb: descendant space by default, dropped before a written combinator. '
          'Tie: the model (list order included) equals the real output on a 3x42x3 placement catalogue under two layouts and on random trees to depth 7; '
-         'an independent string-level oracle checks the property itself (selector set, rule order, declarations). Cross-model theorems (Props/Cross.lean): the models of variables, media and mixins are conservative extensions of this one on sheets without their own constructs.'),
+         'an independent string-level oracle checks the property itself (selector set, rule order, declarations). Cross-model theorems (Props/Cross*.lean, 18 audited): the models of variables, media and mixins are conservative extensions of this one on sheets without their own constructs; the at-rule model agrees with the media model and its printer with the formatter model; the guard test and the call arithmetic of the mixin model are those of the guard and expression models.'),
    note=BASE_NOTE + ' Open known finding C02-star-amp. Fragment boundaries (element after &-suffix, * in the middle) are syntax errors of the front end and are not generated.'),
  'C03': dict(category='proof',
    technique='Lean 4: two-pass frame-stack model with lazy substitution, theorem model = lexical hoisted semantics under a decidable side condition; differential correspondence',
@@ -150,10 +153,10 @@ CHECKS = {
          'a selector is only re-encoded. The remaining parts of the statement are theorems of other properties: every token type after which a '
          'descendant or value space must survive is in the regenerated significant-whitespace set (C12_table), hex literals are normalised '
          'to the same colour (C08_fmt), tokens are printed verbatim under every option vector (C11_erase, C11_layout). Tie/oracle: all ordered '
-         'pairs of 8 compound kinds x 4 combinators, all ordered pairs of 5 value kinds x 3 separators, !important spellings, 9 media query '
+         'pairs of 8 compound kinds x 4 combinators, all ordered pairs of 8 value kinds (incl. words drawn from the lexer\'s own element and property tables) x 3 separators, !important spellings, 9 media query '
          'shapes and random sheets under random option vectors: canonicalised source = canonicalised output (colours after normalisation); '
          'catalogue selectors through Lessm.Sel.identParse = real output.'),
-   note=BASE_NOTE + ' Open known findings C01-hex-id, C01-star-joined, C01-reserved-words; spaces after a string token or a closing parenthesis are dropped by the lexer filter (same CSS token sequence) and are canonicalised away.'),
+   note=BASE_NOTE + ' Open known findings C01-star-joined, C01-reserved-words; spaces after a string token or a closing parenthesis are dropped by the lexer filter (same CSS token sequence) and are canonicalised away.'),
  'C10': dict(category='proof',
    technique='Lean 4: fixed-point theorem on the nesting model (embed output, compile again) for all well-formed nested sources, printer cleanliness theorems; fixed-point oracle on the real compiler over all generators and the corpus',
    text=('C10_idem: for every source satisfying the decidable predicate SourceOK (any nesting depth, any number of & per selector, selector lists, '
